@@ -181,9 +181,9 @@ Example verify_accept_instance_aux :
   length (deep_evaluations O airx coinsx proofxa) = 2 /\
   deep_evaluations O airx coinsx proofxa <> deep_evaluations O airx coinsx proofya.
 Proof.
-  split; [vm_compute; reflexivity|]. split; [vm_compute; reflexivity|]. split; [|split; [reflexivity|]].
-  - intros H. injection H as H. revert H. zp_neq.
-  - intros H. injection H as H _. revert H. zp_neq.
+  split; [vm_compute; reflexivity|]. split; [vm_compute; reflexivity|]. split; [|split; [vm_compute; reflexivity|]].
+  - intros H. apply (f_equal (map (@zp_val P64))) in H. vm_compute in H. discriminate.
+  - intros H. apply (f_equal (map (@zp_val P64))) in H. vm_compute in H. discriminate.
 Qed.
 
 (* the injectivity hypothesis of seed_binds_statement holds in the three library fields *)
